@@ -69,12 +69,13 @@ func TestC02Delivery(t *testing.T) {
 		fault := rapid.IntRange(0, 3).Draw(t, "fault") == 0
 		faultAt := rapid.IntRange(0, nmsg*nsend).Draw(t, "faultAt")
 		flip := rapid.Bool().Draw(t, "senderListens")
+		byteAPI := p.hdr == nil && rapid.Bool().Draw(t, "byteAPI")
 		if p.multi && wq == 0 && stats.Known(knownPushWQ0) {
 			stats.Excluded(knownPushWQ0)
 			wq = 1
 		}
 		doc := map[string]interface{}{"test": "TestC02Delivery", "pattern": p.name, "transport": tr, "writeq": wq, "readq": rq,
-			"senders": nsend, "msgs": nmsg, "peers": npeers, "fault": fault, "faultAt": faultAt, "senderListens": flip, "rseed": os.Getenv("VERIF_RSEED")}
+			"senders": nsend, "msgs": nmsg, "peers": npeers, "fault": fault, "faultAt": faultAt, "senderListens": flip, "byteAPI": byteAPI, "rseed": os.Getenv("VERIF_RSEED")}
 		var fmu sync.Mutex
 		var failures [][2]string
 		fail := func(k, f string, a ...interface{}) {
@@ -212,13 +213,24 @@ func TestC02Delivery(t *testing.T) {
 					if doFault {
 						_ = rcvs[victim].Close()
 					}
-					m := mangos.NewMessage(16)
-					m.Body = append(m.Body, []byte(fmt.Sprintf("s%d-%d", s, q))...)
-					if p.hdr != nil {
-						m.Header = append(m.Header, p.hdr...)
-					}
+					var m *mangos.Message
+					var err error
 					start := time.Now()
-					err := snd.SendMsg(m)
+					if byteAPI {
+						// Send([]byte): the buffer is the caller's again as soon as Send returns
+						buf := []byte(fmt.Sprintf("s%d-%d", s, q))
+						err = snd.Send(buf)
+						for i := range buf {
+							buf[i] = '#'
+						}
+					} else {
+						m = mangos.NewMessage(16)
+						m.Body = append(m.Body, []byte(fmt.Sprintf("s%d-%d", s, q))...)
+						if p.hdr != nil {
+							m.Header = append(m.Header, p.hdr...)
+						}
+						err = snd.SendMsg(m)
+					}
 					if err != nil {
 						m.Free()
 						cmu.Lock()
